@@ -57,6 +57,20 @@ Fixpoint ccheck (C : cscopes) (e : expr) : ty * nat :=
            end
   end.
 
+(* check_call on a user function: the callee must be a known symbol and the arguments are checked
+   as expressions — NO arity, argument-type or keyword-name check.  The call has the callee's return
+   type; a function returning None is modelled as Unknown (compatible with everything). *)
+Definition ccheck_c (P : prog) (C : cscopes) (c : cexpr) : ty * nat :=
+  match c with
+  | CPure e => ccheck C e
+  | CCall f pos kw =>
+      let n := fold_right (fun e acc => (snd (ccheck C e) + acc)%nat) O (pos ++ map snd kw) in
+      match find_fn f P with
+      | Some d => (if fret d then TyInt else TyUnk, n)
+      | None => (TyUnk, Datatypes.S n)
+      end
+  end.
+
 Definition clocal (x : ident) (C : cscopes) : option (ty * bool) :=
   match C with [] => None | f :: _ => tflookup x f end.
 
@@ -66,10 +80,10 @@ Definition rargs_list (r : rargs) : list expr :=
 (* [ev]: does check_if_stmt visit the elif branches?  false on the tree this model was written
    against (finding elif-unchecked); true once the pending `fix: type-check the conditions and bodies
    of elif branches` is merged.  The correspondence run probes the real checker and picks the variant. *)
-Fixpoint ccheck_stmt (ev : bool) (C : cscopes) (s : stmt) {struct s} : cscopes * nat :=
+Fixpoint ccheck_stmt (P : prog) (rt ev : bool) (C : cscopes) (s : stmt) {struct s} : cscopes * nat :=
   match s with
-  | SAssign k x ann e =>
-      let '(t, n) := ccheck C e in
+  | SAssign k x ann c0 =>
+      let '(t, n) := ccheck_c P C c0 in
       match clocal x C with
       | Some (vt, vm) =>
           (* re-assignment of a local: mutability and type *)
@@ -95,43 +109,52 @@ Fixpoint ccheck_stmt (ev : bool) (C : cscopes) (s : stmt) {struct s} : cscopes *
   | SIf c th el =>
       let '(tc, n) := ccheck C c in
       let n1 := (n + b2n (negb (compat tc TyBool)))%nat in
-      let '(_, n2) := ccheck_block ev ([] :: C) th in
-      (C, (n1 + n2 + ccheck_els ev C el)%nat)
+      let '(_, n2) := ccheck_block P rt ev ([] :: C) th in
+      (C, (n1 + n2 + ccheck_els P rt ev C el)%nat)
   | SWhile c b =>
       let '(tc, n) := ccheck C c in
       let n1 := (n + b2n (negb (compat tc TyBool)))%nat in
-      let '(_, n2) := ccheck_block ev ([] :: C) b in
+      let '(_, n2) := ccheck_block P rt ev ([] :: C) b in
       (C, (n1 + n2)%nat)
   | SFor x r b =>
       let n := fold_right (fun e acc => (snd (ccheck C e) + acc)%nat) O (rargs_list r) in
-      let '(_, n2) := ccheck_block ev ([(x, (TyInt, false))] :: C) b in
+      let '(_, n2) := ccheck_block P rt ev ([(x, (TyInt, false))] :: C) b in
       (C, (n + n2)%nat)
-  | SPrint e => (C, snd (ccheck C e))
+  | SPrint c0 => (C, snd (ccheck_c P C c0))
+  | SExpr c0 => (C, snd (ccheck_c P C c0))
+  (* check_return: the value's type must be compatible with the declared return type *)
+  | SReturn None => (C, b2n rt)
+  | SReturn (Some c0) =>
+      let '(t, n) := ccheck_c P C c0 in
+      (C, (n + b2n (if rt then negb (compat t TyInt) else negb (ty_eqb t TyUnk)))%nat)
   | SPass | SBreak | SContinue => (C, O)
   end
-with ccheck_block (ev : bool) (C : cscopes) (b : block) {struct b} : cscopes * nat :=
+with ccheck_block (P : prog) (rt ev : bool) (C : cscopes) (b : block) {struct b} : cscopes * nat :=
   match b with
   | BNil => (C, O)
   | BCons s r =>
-      let '(S1, n1) := ccheck_stmt ev C s in
-      let '(S2, n2) := ccheck_block ev S1 r in
+      let '(S1, n1) := ccheck_stmt P rt ev C s in
+      let '(S2, n2) := ccheck_block P rt ev S1 r in
       (S2, (n1 + n2)%nat)
   end
 (* only the final else body is visited: elif branches are skipped *)
-with ccheck_els (ev : bool) (C : cscopes) (el : els) {struct el} : nat :=
+with ccheck_els (P : prog) (rt ev : bool) (C : cscopes) (el : els) {struct el} : nat :=
   match el with
   | ENone => O
-  | EElse b => snd (ccheck_block ev ([] :: C) b)
+  | EElse b => snd (ccheck_block P rt ev ([] :: C) b)
   | EElif c b rest =>
       if ev then
         let '(tc, n) := ccheck C c in
-        (n + b2n (negb (compat tc TyBool)) + snd (ccheck_block ev ([] :: C) b) + ccheck_els ev C rest)%nat
-      else ccheck_els ev C rest
+        (n + b2n (negb (compat tc TyBool)) + snd (ccheck_block P rt ev ([] :: C) b) + ccheck_els P rt ev C rest)%nat
+      else ccheck_els P rt ev C rest
   end.
 
+Definition check_def (P : prog) (ev : bool) (d : fdef) : nat :=
+  snd (ccheck_block P (fret d) ev [map (fun p => (p, (TyInt, false))) (fparams d)] (fbody d)).
+
 Definition check_errors (ev : bool) (c : fcase) : nat :=
-  snd (ccheck_block ev [map (fun p => (p, (TyInt, false))) (params c)] (body c)).
+  fold_right (fun d acc => (check_def (cprog c) ev d + acc)%nat) O (cprog c).
 
 Definition check_fn_gen (ev : bool) (c : fcase) : bool := Nat.eqb (check_errors ev c) O.
-Definition check_fn (c : fcase) : bool := check_fn_gen false c.          (* the current tree *)
-Definition check_fn_elif (c : fcase) : bool := check_fn_gen true c.      (* after the elif fix *)
+Definition check_fn (c : fcase) : bool := check_fn_gen false c.          (* before the elif fix *)
+Definition check_fn_elif (c : fcase) : bool := check_fn_gen true c.      (* elif branches visited (current tree) *)
